@@ -14,6 +14,7 @@ import (
 	authtypes "github.com/cosmos/cosmos-sdk/x/auth/types"
 	banktypes "github.com/cosmos/cosmos-sdk/x/bank/types"
 
+	ratelimittypes "github.com/cosmos/ibc-go/v11/modules/apps/rate-limiting/types"
 	transfertypes "github.com/cosmos/ibc-go/v11/modules/apps/transfer/types"
 	clienttypes "github.com/cosmos/ibc-go/v11/modules/core/02-client/types"
 	channeltypes "github.com/cosmos/ibc-go/v11/modules/core/04-channel/types"
@@ -81,6 +82,7 @@ type tokState struct {
 	natives   []string
 	genSupply []map[string]sdkmath.Int
 	blockKinds map[string]bool // what the current block contained (for attribution)
+	rl         map[rlKey]*rlModel
 }
 
 const supplyKey = "supply"
@@ -133,6 +135,7 @@ func (p *Core) snapshotBank(ci int) amap {
 func (p *Core) initLedger() {
 	t := &p.tok
 	t.pending = map[int64]*XferInfo{}
+	t.rl = map[rlKey]*rlModel{}
 	t.natives = append([]string{"ufoo"}, p.Opt.Denoms...)
 	for ci := range p.C {
 		b := p.snapshotBank(ci)
@@ -363,6 +366,14 @@ func (p *Core) applyXfer(ci int, r *sim.TxResult) {
 	if !r.OK() {
 		w.Stats.Probe("transfer_refused")
 		w.Stats.NonTrivial("xfer-refused:" + rt.Kind + ":" + classifyDenom(x.SrcDenom))
+		if r.Space == ratelimittypes.ModuleName && r.Code == ratelimittypes.ErrQuotaExceeded.ABCICode() {
+			w.Stats.Probe("send_refused_for_quota")
+			w.Stats.NonTrivial("rl-send-refused:" + rt.Kind)
+			if m := p.tok.rl[rlKey{ci, x.SrcDenom, rt.ID[d]}]; m == nil || !exceeds(m.out.Sub(m.in).Add(x.Amount), m.value, m.send) {
+				w.Violate("C41", "send-refused-within-quota", "", fmt.Sprintf("transfer of %s %s on %s/%s refused for quota although the model's window is within quota", x.Amount, x.SrcDenom, rt.Chain[d].ID, rt.ID[d]))
+				w.Violate("C42", "send-refused-within-quota", "", fmt.Sprintf("transfer of %s %s on %s/%s charged against a rate limit the model does not have on that (denomination, channel)", x.Amount, x.SrcDenom, rt.Chain[d].ID, rt.ID[d]))
+			}
+		}
 		return
 	}
 	src, dst := rt.Chain[d], rt.Chain[1-d]
@@ -396,6 +407,7 @@ func (p *Core) applyXfer(ci int, r *sim.TxResult) {
 		pr.add(escrowAddr(rt.Port[d], rt.ID[d]), x.SrcDenom, x.Amount)
 		p.trackEscrow(ci, x.SrcDenom, x.Amount)
 	}
+	p.rlSend(ci, rt.ID[d], x.SrcDenom, x.Amount, ps.Seq(), ps)
 	p.tok.blockKinds["send"] = true
 	w.Stats.Probe("transfer_sent_" + rt.Kind)
 	w.Stats.NonTrivial(fmt.Sprintf("xfer:%s:alias=%v:burn=%v:%s", rt.Kind, x.Alias, x.Burn, classifyDenom(x.SrcDenom)))
@@ -476,27 +488,51 @@ func (p *Core) tokApplyRelay(ci int, r *sim.TxResult, ps *PktState, lbl string) 
 			return
 		}
 		unwinding := x.Burn // the source burned a voucher that came over this very channel
-		if ok != x.ExpectOK {
+		// the denomination the destination credits, per the model
+		var dstDenom, full string
+		if unwinding {
+			rest := strings.TrimPrefix(x.Path, srcPort+"/"+srcID+"/")
+			dstDenom = rest
+			if p.tok.paths[ci][rest] {
+				dstDenom = voucherOf(rest)
+			}
+		} else {
+			full = dstPort + "/" + dstID + "/" + x.Path
+			dstDenom = voucherOf(full)
+		}
+		allowed, rlm := p.rlRecvAllowed(ci, dstID, dstDenom, x.Amount)
+		expect := x.ExpectOK && allowed
+		if ok != expect {
 			p.lastRefundSig = "recv-refused:" + classifyDenom(x.SrcDenom)
-			if unwinding && x.ExpectOK {
+			if unwinding && expect {
 				w.Violate("C33", "voucher-return-refused", sigDenom(x), fmt.Sprintf("%s: voucher of %q sent back over its channel was answered with an error acknowledgement although receiver %s is valid", ps.Pkt, x.Path, x.Receiver))
 			}
 			if ok && !x.ExpectOK {
 				w.Violate("C30", "credited-invalid-receiver", "", fmt.Sprintf("%s: destination credited receiver %q which the model considers invalid/blocked", ps.Pkt, x.Receiver))
 			}
+			if ok && !allowed {
+				w.Violate("C41", "receive-accepted-over-quota", "", fmt.Sprintf("%s: receive of %s %s on %s accepted although net inflow %s + %s exceeds %s%% of the channel value %s", ps.Pkt, x.Amount, dstDenom, dstID, rlm.in.Sub(rlm.out), x.Amount, rlm.recv, rlm.value))
+			}
+			if !ok && expect && rlm != nil {
+				w.Violate("C41", "receive-refused-within-quota", "", fmt.Sprintf("%s: receive of %s %s on %s answered with an error acknowledgement although receiver is valid and the window is within quota", ps.Pkt, x.Amount, dstDenom, dstID))
+			}
 			w.Stats.Probe("recv_outcome_differs_from_model")
 		}
 		if !ok {
 			w.Stats.Probe("transfer_recv_error_ack")
+			if !allowed {
+				w.Stats.Probe("receive_refused_for_quota")
+				w.Stats.NonTrivial("rl-recv-refused:" + rt.Kind)
+			}
 			return
 		}
 		x.RecvOK = true
+		if rlm != nil {
+			rlm.in = rlm.in.Add(x.Amount)
+			rlm.pendR[ps.Seq()] = true
+			w.Stats.Probe("rate_limited_receive_charged")
+		}
 		if unwinding {
-			rest := strings.TrimPrefix(x.Path, srcPort+"/"+srcID+"/")
-			dstDenom := rest
-			if p.tok.paths[ci][rest] {
-				dstDenom = voucherOf(rest)
-			}
 			pr.add(escrowAddr(dstPort, dstID), dstDenom, x.Amount.Neg())
 			pr.add(x.Receiver, dstDenom, x.Amount)
 			p.trackEscrow(ci, dstDenom, x.Amount.Neg())
@@ -504,8 +540,7 @@ func (p *Core) tokApplyRelay(ci int, r *sim.TxResult, ps *PktState, lbl string) 
 			w.Stats.Probe("transfer_unwound")
 			w.Stats.NonTrivial("return:" + rt.Kind + ":" + classifyDenom(dstDenom))
 		} else {
-			full := dstPort + "/" + dstID + "/" + x.Path
-			v := voucherOf(full)
+			v := dstDenom
 			p.tok.vouchers[ci][v] = full
 			p.tok.paths[ci][full] = true
 			pr.add(supplyKey, v, x.Amount)
@@ -516,6 +551,7 @@ func (p *Core) tokApplyRelay(ci int, r *sim.TxResult, ps *PktState, lbl string) 
 		}
 	case "ack":
 		if ackIsSuccess(ps) {
+			p.rlAckSuccess(ci, srcID, x.SrcDenom, ps.Seq())
 			return
 		}
 		p.tokRefund(ci, ps, "error-ack")
@@ -543,6 +579,7 @@ func (p *Core) tokRefund(ci int, ps *PktState, why string) {
 		p.trackEscrow(ci, x.SrcDenom, x.Amount.Neg())
 	}
 	x.Refunded = true
+	p.rlUndoSend(ci, rt.ID[d], x.SrcDenom, x.Amount, ps.Seq())
 	p.lastRefundSig = "refund:" + classifyDenom(x.SrcDenom)
 	p.tok.blockKinds["refund"] = true
 	p.w.Stats.Probe("transfer_refunded_" + why)
@@ -659,6 +696,7 @@ func (p *Core) tokAfterBlock(ci int, res []*sim.TxResult) {
 	t.bank[ci] = now
 	t.pred[ci] = amap{}
 	t.blockKinds = map[string]bool{}
+	p.rlAfterBlock(ci, res)
 
 	// C31: tracked total escrow
 	if w.AnyArmed("C31", "C30") {
